@@ -135,6 +135,8 @@ type Enc struct {
 	axioms     []string
 	inFinish   bool
 	escaped    []*closureInfo
+	pureCalls  bool
+	noSpecInline bool
 }
 
 func newEnc(w *World, f *ssa.Function, spec *Specs) *Enc {
